@@ -116,9 +116,9 @@ def gen_graph(tape, max_nodes=12, min_nodes=1):
             node = {"key": key, "kind": kind, "form": form}
             ctx = {"prev": prev, "form": form, "key": key, "ncall": 0}
             if kind == "task":
-                shape = tape.draw(7, "shape")
+                shape = tape.draw(9, "shape")
                 extra = None
-                if shape == 5:
+                if shape in (5, 8):
                     if prev:
                         extra = prev[tape.draw(len(prev), "kl")]
                     else:
